@@ -73,6 +73,7 @@ func (c *connStub) Publish(ctx context.Context, topicName string, data []byte) e
 type abiModel struct {
 	mu      sync.Mutex
 	nonce   map[string]uint64
+	maxSeen map[string]uint64 // the largest account nonce the verifier ever answered with, per sender
 	invalid map[string]bool
 	okSeen  map[string]bool // ids that were answered OK at least once
 }
@@ -82,9 +83,13 @@ func (a *abiModel) VerifyTransaction(req *labi.VerifyTransactionRequest) (*labi.
 	defer a.mu.Unlock()
 	tx := req.Transaction
 	if a.invalid[string(tx.ID)] {
+		simkit.Fault("verifier_rejects_transaction")
 		return &labi.VerifyTransactionResponse{Result: labi.TxVerifyResultInvalid}, nil
 	}
 	n := a.nonce[string(tx.SenderAddress())]
+	if n > a.maxSeen[string(tx.SenderAddress())] {
+		a.maxSeen[string(tx.SenderAddress())] = n
+	}
 	switch {
 	case tx.Nonce < n:
 		return &labi.VerifyTransactionResponse{Result: labi.TxVerifyResultInvalid}, nil
@@ -113,7 +118,7 @@ func TestC14(t *testing.T) {
 }
 
 type plannedOp struct {
-	kind   int // 0 add, 1 remove, 2 get, 3 getall, 4 getprocessable, 5 block applied, 6 yield
+	kind   int // 0 add, 1 remove, 2 get, 3 getall, 4 getprocessable, 5 block applied, 6 yield, 7 block reverted
 	sender int
 	nonce  uint64
 	fee    uint64
@@ -141,7 +146,7 @@ func runC14(t *rapid.T) {
 	for c := range plans {
 		n := simkit.Int(t, "nops", 1, 10)
 		for i := 0; i < n; i++ {
-			op := plannedOp{kind: []int{0, 0, 0, 0, 1, 2, 3, 4, 5, 6}[simkit.Int(t, "kind", 0, 9)]}
+			op := plannedOp{kind: []int{0, 0, 0, 0, 1, 2, 3, 4, 5, 6, 5, 7, 7}[simkit.Int(t, "kind", 0, 12)]}
 			op.sender = simkit.Int(t, "sender", 0, nSenders-1)
 			op.nonce = uint64(simkit.Int(t, "nonce", 0, 5))
 			// fees around the replacement threshold; unique-ish priorities
@@ -161,7 +166,7 @@ func runC14(t *rapid.T) {
 	pool := txpool.NewTransactionPool(cfg)
 	logger, _ := log.NewSilentLogger()
 	conn := &connStub{}
-	abi := &abiModel{nonce: map[string]uint64{}, invalid: map[string]bool{}, okSeen: map[string]bool{}}
+	abi := &abiModel{nonce: map[string]uint64{}, maxSeen: map[string]uint64{}, invalid: map[string]bool{}, okSeen: map[string]bool{}}
 	ctx, cancel := context.WithCancel(context.Background())
 	defer cancel()
 	if err := pool.Init(ctx, logger, nil, nil, conn, abi); err != nil {
@@ -170,6 +175,7 @@ func runC14(t *rapid.T) {
 	var hmu sync.Mutex
 	var hist []opRec
 	var created []*blockchain.Transaction
+	appliedBlocks := map[int][][]*blockchain.Transaction{} // per sender: the blocks applied so far (for reverts)
 	seenID := map[string]bool{}
 	record := func(r opRec) { hmu.Lock(); hist = append(hist, r); hmu.Unlock() }
 	fail := func(oracle, witness, format string, args ...interface{}) {
@@ -250,10 +256,39 @@ func runC14(t *rapid.T) {
 						}
 					}
 					abi.mu.Unlock()
+					if applied > 0 {
+						hmu.Lock()
+						appliedBlocks[op.sender] = append(appliedBlocks[op.sender], append([]*blockchain.Transaction(nil), mine[:applied]...))
+						hmu.Unlock()
+					}
 					for _, tx := range mine[:applied] {
 						pool.Remove(tx.ID)
 					}
 					record(opRec{Client: c, Op: "block-applied", Sender: op.sender, Res: fmt.Sprint(applied)})
+				case 7: // the last applied block of this sender is reverted: the account nonce goes back, the generator
+					// hands the block's transactions to the pool again (generator.onDeleteBlock)
+					addr := string(crypto.GetAddress(senders[op.sender].pub))
+					hmu.Lock()
+					var blk []*blockchain.Transaction
+					if l := appliedBlocks[op.sender]; len(l) > 0 {
+						blk = l[len(l)-1]
+						appliedBlocks[op.sender] = l[:len(l)-1]
+					}
+					hmu.Unlock()
+					if blk == nil {
+						continue
+					}
+					abi.mu.Lock()
+					abi.nonce[addr] -= uint64(len(blk))
+					abi.mu.Unlock()
+					simkit.Fault("block_reverted_transactions_readded")
+					back := 0
+					for _, tx := range blk {
+						if pool.Add(tx) {
+							back++
+						}
+					}
+					record(opRec{Client: c, Op: "block-reverted", Sender: op.sender, Res: fmt.Sprintf("%d/%d", back, len(blk))})
 				default:
 					simrt.Yield("client-yield")
 				}
@@ -396,7 +431,7 @@ func checkSnapshot(s *txpool.VerifSnapshot, cfg *txpool.TransactionPoolConfig, a
 			seen[id] = true
 		}
 		// processables: ascending, gap-free, pooled; the run must start at a nonce the verifier can accept:
-		// the account nonce only grows, so a first processable nonce above it was pending when it was promoted
+		// a first processable nonce above every account nonce the verifier ever used was pending when it was promoted
 		for i, n := range a.Processables {
 			id, ok := a.Transactions[n]
 			if !ok {
@@ -407,6 +442,9 @@ func checkSnapshot(s *txpool.VerifSnapshot, cfg *txpool.TransactionPoolConfig, a
 			}
 			abi.mu.Lock()
 			acct := abi.nonce[a.Sender]
+			if m := abi.maxSeen[a.Sender]; m > acct {
+				acct = m // a reverted block took the account nonce back: the run was verified against the larger value
+			}
 			inv := abi.invalid[id]
 			abi.mu.Unlock()
 			if i == 0 && n > acct {
